@@ -196,12 +196,29 @@ def gen_case(rng, index, tier):
                     nd['c'] = '\n'.join(lines)
                     e['decoy_path'] = decoy
     fulls = ['/' + e['loc'] for e in entries]
+    alias = None
+    vol_entries = [e for e in entries if e['volume'] and not e['home']]
+    if vol_entries and rng.random() < 0.08:
+        # the same volume is listed under a second name (a symlink to its
+        # mount point): its entries have two full original paths, a pattern
+        # starting with '/' selects an entry if it matches either
+        v = rng.choice(vol_entries)['volume']
+        aname = 'also-' + v.replace('/', '_')
+        L.add({'p': aname, 't': 'l', 'to': '@/' + v})
+        items = ['@/' + m if m else '@' for m in L.mounts] + ['@/' + aname]
+        if rng.random() < 0.5:
+            items.reverse()
+        L.env['TRASH_VOLUMES'] = ':'.join(items)
+        alias = {'vol': v, 'name': aname}
+        fulls += ['/' + aname + e['loc'][len(v):] for e in vol_entries
+                  if e['volume'] == v] * 3
     pat, pclass = make_pattern(rng, [os.path.basename(e['loc']) for e in entries], fulls)
     case = L.desc()
     case['entries'] = entries
     case['pattern'] = pat
     case['pclass'] = pclass
     case['trashes'] = [t['rel'] for t in trashes]
+    case['alias'] = alias
     if hostile_perms:
         case['drop_caps'] = True
     return case
@@ -236,6 +253,13 @@ def run_case(case):
             subject = full if pat.startswith('/') else os.path.basename(full)
             m_spec = spec.glob_match(subject, pat)
             m_fn = fnmatch.fnmatchcase(subject, pat)
+            al = case.get('alias')
+            if al and pat.startswith('/') and e['volume'] == al['vol'] and not e['home']:
+                # the entry's other full path, through the volume's second name
+                full2 = w.abs(al['name'] + e['loc'][len(al['vol']):])
+                m_spec = m_spec or spec.glob_match(full2, pat)
+                m_fn = m_fn or fnmatch.fnmatchcase(full2, pat)
+                obs['alias_volume_entries'] = obs.get('alias_volume_entries', 0) + 1
             st = trashworld.entry_state(s0, s1, e)
             if portable:
                 exp = m_spec
